@@ -251,4 +251,12 @@ PROPS = {
                "No check asserts that anything is fast; the clock is only used for 'lasted at least' and 'completed before the deadline'. A blocking recv is issued only when the script guarantees a message or a drop.",
                "cases = (steps of (operation, sender action), typed or bytes channel); non-trivial = a blocking recv after an Empty, or a send/drop during a timed wait of >=5 ms, or a sub-millisecond timeout; distinct = distinct (build, params, canonical JSON)"),
     ),
+    "C11": dict(
+        jobs=lambda tier: [dict(build=b, params={"sndbuf": "4096", "cases": "2000" if tier == "quick" else "40000"}, shards=8 if tier == "quick" else 16) for b in ("os", "memfd")],
+        meta=M("exploration",
+               "stateful property testing over the whole public API (world-model programs interleaved with failure paths, undecoded drops, router routes and start/stop cycles, repeated for amplification) with descriptor/mapping/temp-file snapshots, a close ledger with planted sentinel descriptors, and spawned children reporting inherited descriptors",
+               "Generated sequences (<=60 operations quick, <=400 thorough, repeated up to ~10^3 times within an operation budget) create channels, bytes channels, regions, sets, servers and routers, clone, send small and multi-packet messages with mixed attachments, receive (decoding or dropping undecoded), transfer endpoints, connect to missing and stale names, send values whose serialisation fails, send to closed receivers, and drop everything in generated order. At generated moments every free descriptor number is filled with a sentinel (raw-syscall dup of /dev/null) so that a stale or double close is recorded by the interposed close, and an unrelated child (exec of the harness with 'helper fdlist') reports what it inherited. Afterwards /proc/self/fd, the shared-memory lines of /proc/self/maps and the TMPDIR listing must equal the snapshot taken before the sequence; no close may have failed with EBADF or hit a sentinel; the child must have seen only 0/1/2.",
+               "memfd_create is a raw syscall invisible to the wrappers - the snapshot oracle still sees its descriptors. The world-model results are checked too (a mismatch is reported under its own signature).",
+               "cases = (operation sequence, repetition count); non-trivial = the sequence has >=20 operations and contains a failing operation, an endpoint transfer, a router or a receiver set; distinct = distinct (build, canonical JSON)"),
+    ),
 }
